@@ -238,6 +238,32 @@ func checkC02(w *Worker) {
 		d.Entries = append(d.Entries, absIng{d.Entries[0].Name, 0.25})
 		verify(x, 0, ri, c02Books[0], absLog{d})
 	})
+	// sequences of wide days: every pair of consecutive day sizes (whatever is sized for one day and reused for the
+	// next meets growth and shrinkage), foods partly shared between the days, totals with up to 130 elements
+	w.Explore("wide-day-sequences", ExploreOpts{ShardDepth: 3}, func(x *Exec) {
+		ri := x.Choose(nRend, "input:renderer")
+		sz := []int{5, 17, 33, 40, 70, 130}
+		s1 := sz[x.Choose(len(sz), "input:foods-day-1")]
+		s2 := sz[x.Choose(len(sz), "input:foods-day-2")]
+		third := x.Choose(2, "input:third-day")
+		var lg absLog
+		for di, n := range []int{s1, s2, 3} {
+			if di == 2 && third == 0 {
+				break
+			}
+			d := absDay{Date: dates[di%len(dates)]}
+			for j := 0; j < n; j++ {
+				name := fmt.Sprintf("el/%03d", (j*7+di*5)%150)
+				if j == 2 {
+					name = "r1"
+				}
+				d.Entries = append(d.Entries, absIng{name, float64(int(1) << uint((j+di)%20))})
+			}
+			d.Entries = append(d.Entries, absIng{d.Entries[0].Name, 0.25}, absIng{d.Entries[n/2].Name, -0.5})
+			lg = append(lg, d)
+		}
+		verify(x, 0, ri, c02Books[0], lg)
+	})
 	// merge shapes: longer days over a small food alphabet; the i-th entry has quantity 2^i, so the
 	// merged quantity of a food identifies exactly which entries were folded into it
 	maxLen := 6
